@@ -28,7 +28,7 @@ PALETTE = [0, 0, 0.1, 1 / 3., 0.5, 0.7, 1]
 
 def gates(tier):
     return {'calls': 5000, 'graded_calls': 3500, 'error_expected': 400, 'surplus_cases': 500, 'missing_cases': 500,
-            'multi_alternative_cases': 1000, 'permutation_sets': 100, 'nested_cases': 150, 'dense_table_calls': 12000, 'nested_error_expected': 8, 'nested_message_checks': 40, 'inferred_cases': 150,
+            'multi_alternative_cases': 1000, 'permutation_sets': 100, 'nested_cases': 150, 'dense_table_calls': 12000, 'delimiter_cases': 500, 'nested_error_expected': 8, 'nested_message_checks': 40, 'inferred_cases': 150,
             'message_expected': 300, 'partial_credit_false_cases': 800}
 
 
@@ -228,7 +228,7 @@ def run_dense(ctx):
         k = rng.randint(4, 7)
         exp_items = ['e%d' % a for a in range(n)]
         sub_items = ['s%d' % b for b in range(k)]
-        pal = rng.choice([[0, 0.25, 0.5, 0.75, 1], [0, 0.5, 1], [0.1 * q for q in range(11)]])
+        pal = rng.choice([[0, 0.25, 0.5, 0.75, 1], [0, 0.5, 1], [0.1 * q for q in range(11)], [0.5, 0.504, 0.496, 0.508, 0.512, 0.492]])
         table = {(e, s_): rng.choice(pal) for e in exp_items for s_ in sub_items}
         g = SingleListGrader(answers=exp_items, subgrader=lib.TableGrader(table=table, ids=False), ordered=False)
         out = lib.call(ctx, g, None, ', '.join(sub_items))
@@ -244,6 +244,46 @@ def run_dense(ctx):
         elif abs(out.value['grade_decimal'] - frac) > 1e-9:
             ctx.violation('C07:unordered:grade', 'grade %r, documented formula gives %r' % (out.value['grade_decimal'], frac),
                           {'credits_expected_by_submitted': C, 'outcome': out.brief()})
+
+
+def run_delimiters(ctx):
+    """The delimiter is the author's string, character for character (blanks at its ends included): items may contain parts of it."""
+    from mitxgraders import SingleListGrader, StringGrader
+    rng = ctx.rng
+    table = [(', ', ['f(1,2)', 'g(3,4)', 'h']), (' - ', ['a-b', 'c-d', 'e']), (' | ', ['x|y', 'z']), (' and ', ['sand', 'band', 'hand']),
+             ('; ', ['p;q', 'r']), (',  ', ['a, b', 'c'])]
+    for i in range(ctx.n(640, 8000)):
+        delim, items = rng.choice(table)
+        ordered = rng.random() < 0.5
+        form = rng.choice(['list', 'string', 'inferred'])
+        if form == 'list':
+            g, expect = SingleListGrader(answers=list(items), subgrader=StringGrader(), delimiter=delim, ordered=ordered), None
+        elif form == 'string':
+            g, expect = SingleListGrader(answers=delim.join(items), subgrader=StringGrader(), delimiter=delim, ordered=ordered), None
+        else:
+            g, expect = SingleListGrader(subgrader=StringGrader(), delimiter=delim, ordered=ordered), delim.join(items)
+        sub_items = list(items)
+        kind = rng.choice(['same', 'perm', 'drop'])
+        if kind == 'perm':
+            rng.shuffle(sub_items)
+        elif kind == 'drop' and len(sub_items) > 1:
+            sub_items.pop()
+        n, k = len(items), len(sub_items)
+        if ordered:
+            hits = sum(1 for a, b in zip(items, sub_items) if a == b)
+        else:
+            hits = len(set(items) & set(sub_items))
+        want = max(0.0, (hits - max(0, k - n)) / float(n))
+        out = lib.call(ctx, g, expect, delim.join(sub_items))
+        ctx.ev()
+        ctx.count('calls')
+        ctx.count('delimiter_cases')
+        wit = {'delimiter': delim, 'items': items, 'answers_given_as': form, 'submission': delim.join(sub_items), 'ordered': ordered, 'outcome': out.brief()}
+        ctx.nontrivial(['delim', delim, form, kind, ordered])
+        if not out.returned:
+            ctx.violation('C07:delimiter:raises', repr(out.exc), wit)
+        elif abs(out.value['grade_decimal'] - want) > 1e-9:
+            ctx.violation('C07:delimiter:grade', 'grade %r, splitting at the configured delimiter gives %r' % (out.value['grade_decimal'], want), wit)
 
 
 def run_forms(ctx):
@@ -380,5 +420,6 @@ def run_forms(ctx):
 
 def run(ctx):
     run_dense(ctx)
+    run_delimiters(ctx)
     run_main(ctx)
     run_forms(ctx)
